@@ -16,6 +16,8 @@ InWinDomain(s) ==
     /\ ~(Len(s) >= 2 /\ s[2] = ":" /\ s[1] \notin Letters)
     /\ ~(Len(s) >= 4 /\ VolLen("windows", s) = 2 /\ IsSep("windows", s[3]) /\ IsSep("windows", s[4]))
     /\ ~(Len(s) >= 3 /\ IsSep("windows", s[1]) /\ s[2] = "?" /\ s[3] = "?")      \* \??\ root local device paths
+    \* (the part behind a drive looking like a drive again, with something else than a letter: Dir cleans that part on its own)
+    /\ ~(Len(s) >= 4 /\ VolLen("windows", s) = 2 /\ s[4] = ":" /\ s[3] \notin Letters)
 
 One(os, s) ==
     [os |-> os, s |-> s, clean |-> Clean(os, s), isabs |-> IsAbs(os, s), vol |-> VolumeName(os, s),
